@@ -20,7 +20,8 @@ Resolved(e) ==
   IN {d \in UNION {{DocOf(e, p).defs[i] : i \in DOMAIN DocOf(e, p).defs} : p \in DOMAIN files} :
         d.k # "import" /\ \E pr \in pairs :
            /\ \E i \in DOMAIN DocOf(e, pr[1]).defs : DocOf(e, pr[1]).defs[i] = d
-           /\ pr[2] = (IF d.k = "op" THEN (IF d.hasName THEN d.name ELSE "") ELSE d.name)}
+           /\ pr[2] = d.k
+           /\ pr[3] = (IF d.k = "op" THEN (IF d.hasName THEN d.name ELSE "") ELSE d.name)}
 
 FragMap(defs) == [n \in {d.name : d \in {x \in defs : x.k = "frag"}} |-> CHOOSE d \in defs : d.k = "frag" /\ d.name = n]
 
